@@ -119,6 +119,10 @@ def build_callable(program: dict, pool: Pool, keep: list) -> Any:
                 r = lib.fn_scale(inp, **kw)
             elif t == "fn_gain":
                 r = lib.fn_gain(inp, **kw)
+            elif t == "fn_shift":
+                bsel = s.get("b", "dyn")
+                bval = inp[0] * 0.5 if bsel == "dyn" else jnp.asarray(lib.SHIFT_CONSTS[bsel].astype(np.dtype(inp.dtype)))
+                r = lib.fn_shift(inp, bval)
             elif t == "op_named":
                 # a decorated callable NAMED like an ONNX operator, between two inverse transposes
                 callee = lib.Relu if s.get("which", "fn") == "fn" else pool.inst[s["inst"]]
@@ -160,7 +164,7 @@ def site_value_key(s: dict, pool: Pool) -> tuple:
     if s["target"] == "op_named":
         obj: Any = "Relu" if s.get("which", "fn") == "fn" else _norm_spec(pool.desc[s["inst"]])
         return ("op_named", obj, "", bool(s.get("halve")), bool(s.get("sandwich", True)))
-    if s["target"] in ("fn_sin2", "fn_scale", "fn_gate", "fn_gain"):
+    if s["target"] in ("fn_sin2", "fn_scale", "fn_gate", "fn_gain", "fn_shift"):
         obj = s["target"]
     elif "temp" in s:
         obj = _norm_spec(s["temp"])
@@ -556,20 +560,25 @@ def gen_history(seed: int, run: int, n_ops: int) -> list[dict]:
             pure_fn_only = r.random() < 0.12
             for _ in range(n_sites):
                 v = r.random()
-                if pure_fn_only or v < 0.18:
+                if pure_fn_only or v < 0.28:
                     w_ = r.random()
-                    if w_ < 0.25:
+                    if w_ < 0.2:
                         s: dict = {"target": "fn_sin2"}
-                    elif w_ < 0.33:
+                    elif w_ < 0.3:
                         s = {"target": "op_named", "which": "fn", "sandwich": r.random() < 0.8}
                     elif w_ < 0.45:
+                        # a binary target whose second argument is a constant at some sites and data at others
+                        s = {"target": "fn_shift", "b": r.choice(["c1", "c2", "dyn"])}
+                        if sites and r.random() < 0.6:
+                            sites.append(dict(s, b=r.choice(["c1", "c2", "dyn"])))
+                    elif w_ < 0.58:
                         # keyword values that are equal (and hash-equal) but of different type
                         s = {"target": "fn_gain", "kw": {"gain": r.choice([1, 1.0, True, 2, 2.0])} if r.random() < 0.8 else {}}
-                    elif w_ < 0.6:
+                    elif w_ < 0.75:
                         s = {"target": "fn_gate", "order": r.choice(["dn", "nd"])}
                     else:
                         s = {"target": "fn_scale", "kw": {"factor": r.choice([2.0, 3.0, 0.5])} if r.random() < 0.7 else {}}
-                elif v < 0.30:
+                elif v < 0.38:
                     s = {"target": r.choice(["PlainScale", "EqxBlock"]), "temp": {"cls": "", "seed": r.randrange(1, 5)}, "keep": r.random() < 0.6}
                     s["temp"]["cls"] = s["target"]
                 else:
